@@ -323,7 +323,7 @@ type c02Plan struct {
 	Burns []int64 // block-gas cause: GasWanted of the burner txs before T
 }
 
-const c02MinBurn = 900_000
+const c02MinBurn = 1_750_000 // a burner must also find >= ~1.66M block gas left when it starts
 
 const c02BurnBody = "package main\n\nfunc main() {\n\tx := 0\n\tfor {\n\t\tx++\n\t}\n}\n"
 
@@ -487,6 +487,25 @@ func b2i(b bool) int64 {
 	return 0
 }
 
+// c02Ctx records the classes of one case besides forwarding them to the kit.
+type c02Ctx struct {
+	*vk.Ctx
+	seen map[string]bool
+}
+
+func (c *c02Ctx) Class(name string) {
+	if c.seen != nil {
+		c.seen[name] = true
+	}
+	c.Ctx.Class(name)
+}
+
+func (c *c02Ctx) ClassIf(cond bool, name string) {
+	if cond {
+		c.Class(name)
+	}
+}
+
 // c02FailIndex extracts the index of the failed message from the result log
 // ("msg:K,success:false"), or -1 when the failure was not a handler result.
 func c02FailIndex(r abci.ResponseDeliverTx) int {
@@ -503,7 +522,11 @@ func c02FailIndex(r abci.ResponseDeliverTx) int {
 	return n
 }
 
-func c02Exec(ctx *vk.Ctx, c c02Case) error {
+func c02Exec(ctx *vk.Ctx, c c02Case) error { return c02ExecSeen(ctx, c, nil) }
+
+// c02ExecSeen is c02Exec; classes are additionally recorded in seen.
+func c02ExecSeen(vctx *vk.Ctx, c c02Case, seen map[string]bool) error {
+	ctx := &c02Ctx{Ctx: vctx, seen: seen}
 	a, plan, notes, err := c02Deliver(c, false, nil)
 	if err != nil {
 		return err
@@ -632,7 +655,7 @@ func c02Exec(ctx *vk.Ctx, c c02Case) error {
 // c02Success: T succeeded, so all its messages' effects must be present: the
 // state must equal the state reached by delivering the messages one per
 // transaction (same block), except for the signer's extra fees and sequence.
-func c02Success(ctx *vk.Ctx, c c02Case, a *c02Run, plan *c02Plan) error {
+func c02Success(ctx *c02Ctx, c c02Case, a *c02Run, plan *c02Plan) error {
 	if c.Cause == c02BlockGas {
 		return nil // the split txs would face a different block gas situation
 	}
@@ -725,4 +748,99 @@ func TestC02_Atomic(t *testing.T) {
 		Rule: "rapid: prefix history (0-2 blocks) + tx T of 2-4 messages (1-2 for the block-gas cause) whose message i fails by a generated cause — handler error, Gno panic, Go panic in the handler, storage-deposit failure (MaxDeposit too small), tx out-of-gas (GasWanted drawn strictly between the simulated cumulative gas after message i-1 and after message i), block gas (Block.MaxGas 6-12M; a burner tx with exact GasWanted leaves a drawn remainder: >=1.75M and < T's gas, <1.5M, or 0) — then 0-2 txs in the same block and a follow-up block (reader script + 1-3 generated txs); twin chain with a no-op T'; non-trivial = T passed the ante, failed at message index >=1 after earlier state-writing messages had run, and all comparisons were made; distinct by case",
 		Draw: c02Draw, Exec: c02Exec,
 	})
+}
+
+// c02FixedCases: one hand-written representative per failure cause (and per
+// block-gas regime), so that every run exercises every cause.
+func c02FixedCases() []c02Case {
+	inc := c02Call(ec.PathCtr, "Inc", "3")
+	set := c02Call(ec.PathKV, "Set", "a", "xyz")
+	push := c02Call(ec.PathKV, "Push", "b", "yyyy")
+	both := c02Call(ec.PathMulti, "Both", "c", "2")
+	pkg := func(body string) ec.HMsg {
+		return ec.HMsg{Kind: "addpkg", Path: "gno.land/r/gen/p1", Body: fmt.Sprintf(body, "p1")}
+	}
+	follow := []axTx{
+		{Signer: 0, Fee: axFee, Gas: 60_000_000, Msgs: []ec.HMsg{pkg(c02GenBodies[0]), c02Call("gno.land/r/gen/p1", "Add", "4")}},
+		{Signer: 1, Fee: axFee, Gas: 60_000_000, Msgs: []ec.HMsg{c02Call(ec.PathMulti, "Both", "d", "1"), c02Call(ec.PathKV, "Pop", "1")}},
+	}
+	prefix := [][]axTx{{{Signer: 0, Fee: axFee, Gas: 60_000_000, Msgs: []ec.HMsg{set, c02Call(ec.PathCtr, "Note", "abc")}}}}
+	mk := func(cause string, failAt int, msgs ...ec.HMsg) c02Case {
+		return c02Case{NAcc: 2, Cause: cause, Prefix: prefix, FailAt: failAt, Perm: 500, F: follow,
+			T:     axTx{Signer: 1, Fee: axFee, Gas: 60_000_000, Msgs: msgs},
+			After: []axTx{{Signer: 0, Fee: axFee, Gas: 60_000_000, Msgs: []ec.HMsg{inc, push}}}}
+	}
+	small := func(regime string, msgs ...ec.HMsg) c02Case {
+		c := mk(c02BlockGas, len(msgs)-1, msgs...)
+		c.MaxGas, c.Regime, c.After = 7_000_000, regime, nil
+		c.T.Gas = c02BlockTxGas
+		c.Prefix = [][]axTx{{{Signer: 0, Fee: axFee, Gas: c02BlockTxGas, Msgs: []ec.HMsg{set}}}}
+		c.Fill = []axTx{{Signer: 0, Fee: axFee, Gas: c02BlockTxGas, Msgs: []ec.HMsg{push}}}
+		for i := range c.F {
+			c.F[i].Gas = c02BlockTxGas
+		}
+		c.F = append([]axTx{}, c.F...)
+		return c
+	}
+	smallFollow := func(c c02Case) c02Case {
+		f := make([]axTx, len(c.F))
+		for i, t := range c.F {
+			t.Gas = c02BlockTxGas
+			f[i] = t
+		}
+		c.F = f
+		return c
+	}
+	return []c02Case{
+		mk(c02MsgErr, 1, inc, ec.HMsg{Kind: "send", To: 0, Amt: 1 << 50, Den: "ugnot"}, set),
+		mk(c02GnoPanic, 2, push, inc, c02Call(ec.PathMulti, "BothThenBoom", "q", "1")),
+		mk(c02GnoPanic, 1, both, pkg("package %s\n\nvar X = []int{1}\n\nfunc init() { X = append(X, 2); panic(\"init panic\") }\n")),
+		mk(c02GoPanic, 1, set, c02Call(ec.PathCtr, "Nope"), inc),
+		mk(c02Deposit, 1, inc, ec.HMsg{Kind: "call", Pkg: ec.PathKV, Fn: "Push", Args: []string{"a", "zzzzzzzzzzzzzzzzzzzzzzzzzzzzzz"}, Dep: 1}),
+		mk(c02Deposit, 1, both, ec.HMsg{Kind: "addpkg", Path: "gno.land/r/gen/p1", Body: fmt.Sprintf(c02GenBodies[2], "p1"), Dep: 1}),
+		mk(c02TxOOG, 1, inc, both, set),
+		mk(c02TxOOG, 2, push, pkg(c02GenBodies[1]), c02Call("gno.land/r/gen/p1", "Add", "1")),
+		smallFollow(small("after-msgs", inc, set)),
+		smallFollow(small("pre-ante", inc)),
+		smallFollow(small("exhausted", set)),
+		mk(c02None, 0, inc, both, pkg(c02GenBodies[2]), push),
+	}
+}
+
+const c02CauseShards = 3
+
+// TestC02_Causes runs the fixed representatives and demands that every
+// failure cause was really observed as intended.
+func TestC02_Causes(t *testing.T) {
+	r := vk.Open(t, "C02", "TestC02_Causes", "enumeration: one fixed multi-message tx per failure cause (handler error, Gno panic in a call and in a package init, Go panic, storage deposit in a call and in a deployment, tx out-of-gas inside message 1 and 2, block gas crossed after the messages / too little left for the ante / exhausted) plus one successful tx; same twin oracle as TestC02_Atomic; non-trivial as there")
+	defer r.Close()
+	if vk.Replaying() {
+		t.Skip()
+	}
+	r.ReplayAs = "TestC02_Atomic"
+	r.Extra("exhaustive", false)
+	for i, c := range c02FixedCases() {
+		c := c
+		if i%c02CauseShards != r.Shard%c02CauseShards {
+			continue // the registration runs this enumerator in c02CauseShards processes
+		}
+		err := r.Do(c, func(ctx *vk.Ctx) error {
+			seen := map[string]bool{}
+			if err := c02ExecSeen(ctx, c, seen); err != nil {
+				return err
+			}
+			want := map[string]string{c02MsgErr: "T-error=InsufficientCoinsError", c02GoPanic: "T-error=InternalError", c02TxOOG: "T-failed:tx-out-of-gas",
+				c02GnoPanic: "failed-after-ante", c02Deposit: "failed-after-ante", c02None: "success-equals-split"}[c.Cause]
+			if c.Cause == c02BlockGas {
+				want = map[string]string{"after-msgs": "T-failed:block-gas-after-msgs", "pre-ante": "T-failed:block-gas-before-ante", "exhausted": "T-failed:no-block-gas-left"}[c.Regime]
+			}
+			if !seen[want] {
+				return fmt.Errorf("harness: fixed case for cause %s/%s did not produce the intended failure (%s); classes seen: %v", c.Cause, c.Regime, want, seen)
+			}
+			return nil
+		})
+		if err != nil {
+			return
+		}
+	}
 }
